@@ -143,7 +143,7 @@ CHECKS.update({
         '(full for every family except GaussianKDE whose cached sample size refutes it, with witness), every query and sample of an unfitted model raises NotFittedError and touches no generator (full for the bivariate classes since the F23 fix; vines since F30), multivariate validation leaves the state unchanged, get_instance returns a fresh configured object, '
         'definition-before-use of np.empty cells in vines (refuted with witness); AST-generated facts (store_args classes, validated fits, check_fit-first methods, guard shapes, fit writes) decided by vm_compute. '
         'Tie: random and scripted fit/query histories on the real classes vs vm_compute of the machine over captured oracle tables; refit-vs-fresh and misuse oracles on every class incl. vines.',
-   note=TB + 'Model.Lifecycle is tied to the source by proof, layer by layer, each generated from the AST on every run and proved equal to the model for all states and inputs: the control skeleton of Univariate/ScipyModel (unictlgen.py, C19_bridge_*), the family hooks of the eight classes, GaussianKDE._get_model/_set_params/pdf/logpdf/sample and the selecting wrapper (uniwrapgen.py, C19_bridge2_*), GaussianMultivariate / Multivariate fit, queries, to_dict/from_dict (gmctlgen.py, coq/Lib/PyGM.v, C19_bridge_gm_*), copulas/utils.py get_instance / get_qualified_name / store_args / check_valid_values (utilsgen.py, C19u_bridge_*), the Bivariate constructor / queries / serialisation (bivlifegen.py, coq/Lib/PyBivLife.v, C14_bridge_*); nine modelling errors of the hand-written model were found by bridges that did not go through and corrected; the control of GaussianKDE.cumulative_distribution / percent_point / _get_bounds, the four _constant_* methods and the constructors composed with the generated @store_args (kdeqgen.py, coq/Lib/PyKdeQ.v, C19_bridge3_*); still hand-written: save / load of the univariate and multivariate classes, select_univariate's KS loop (oracle); scipy fits/optimisers are oracle tables captured per run; datasets are abstracted to (identity, constant?, range, size).',
+   note=TB + 'Model.Lifecycle is tied to the source by proof, layer by layer, each generated from the AST on every run and proved equal to the model for all states and inputs: the control skeleton of Univariate/ScipyModel (unictlgen.py, C19_bridge_*), the family hooks of the eight classes, GaussianKDE._get_model/_set_params/pdf/logpdf/sample and the selecting wrapper (uniwrapgen.py, C19_bridge2_*), GaussianMultivariate / Multivariate fit, queries, to_dict/from_dict (gmctlgen.py, coq/Lib/PyGM.v, C19_bridge_gm_*), copulas/utils.py get_instance / get_qualified_name / store_args / check_valid_values (utilsgen.py, C19u_bridge_*), the Bivariate constructor / queries / serialisation (bivlifegen.py, coq/Lib/PyBivLife.v, C14_bridge_*); eight modelling errors of the hand-written model were found by bridges that did not go through and corrected; the control of GaussianKDE.cumulative_distribution / percent_point / _get_bounds, the four _constant_* methods and the constructors composed with the generated @store_args (kdeqgen.py, coq/Lib/PyKdeQ.v, C19_bridge3_*); still hand-written: save / load of the univariate and multivariate classes, the KS loop of select_univariate (oracle); scipy fits/optimisers are oracle tables captured per run; datasets are abstracted to (identity, constant?, range, size).',
    technique='Coq induction over fit histories on life-cycle state machines; the control skeletons of the univariate, wrapper, Gaussian-multivariate and bivariate classes and of copulas/utils.py generated from the AST with bridge theorems (C19_bridge_*, C19_bridge2_*, C19_bridge3_*, C19_bridge_gm_*, C19u_bridge_*, C14_bridge_*); AST facts; history correspondence',
    ref='DESIGN.md section 7, C19'),
 })
